@@ -211,6 +211,27 @@ def evaluate(ctx, rng, idx, h, kind, phase, sample=None):
             for name, fn in (("method", h.is_isolated), ("function", lambda x, **k: cc.is_isolated(h, x, **k))):
                 got = call(fn, n, **kw)
                 ctx.check("C08:components", got == iso, f"C08:is_isolated({name})" + (":filtered" if f else ""), lambda: wit((n, kw, got, iso)))
+        if f is not None and rng.random() < 0.25:
+            # the filter handed over POSITIONALLY, in each callable's documented parameter order: the module functions take
+            # (hg[, node], order, size), the degree methods (node, order, size), the component methods ([node,] size, order)
+            o_, s_ = (f[1], None) if f[0] == "order" else (None, f[1])
+            n0 = rng.choice(all_nodes)
+            iso0 = len(comp_of[n0]) == 1
+            for name, got, exp in (
+                    ("degree(function)", call(dm.degree, h, n0, o_, s_), deg[n0]),
+                    ("degree(method)", call(h.degree, n0, o_, s_), deg[n0]),
+                    ("degree_sequence(function)", call(dm.degree_sequence, h, o_, s_), deg),
+                    ("degree_sequence(method)", call(h.degree_sequence, o_, s_), deg),
+                    ("degree_distribution(function)", call(dm.degree_distribution, h, o_, s_), hist),
+                    ("num_connected_components(function)", call(cc.num_connected_components, h, o_, s_), len(ref)),
+                    ("num_connected_components(method)", call(h.num_connected_components, s_, o_), len(ref)),
+                    ("is_connected(function)", call(cc.is_connected, h, o_, s_), len(ref) == 1),
+                    ("is_connected(method)", call(h.is_connected, s_, o_), len(ref) == 1),
+                    ("largest_component_size(function)", call(cc.largest_component_size, h, o_, s_), big),
+                    ("largest_component_size(method)", call(h.largest_component_size, s_, o_), big),
+                    ("is_isolated(function)", call(cc.is_isolated, h, n0, o_, s_), iso0),
+                    ("is_isolated(method)", call(h.is_isolated, n0, s_, o_), iso0)):
+                ctx.check("C08:positional-filter", not isinstance(got, _Raised) and got == exp, f"C08:{name}:positional-filter", lambda: wit((name, f, got, exp)))
         expi = Counter(n for n in S.nodes if len(comp_of[n]) == 1)
         for name, fn in (("method", h.isolated_nodes), ("function", lambda **k: cc.isolated_nodes(h, **k))):
             got = call(fn, **kw)
